@@ -256,6 +256,9 @@ pub struct Plan {
     pub seq: Vec<(String, i32, usize, usize)>,
     /// fd exhaustion: every fd-creating syscall from injectable index `from` on fails with errno
     pub exhaust: Option<(usize, usize, i32)>,
+    /// bits cleared from the request mask of every statx(2) of the tracee (emulates kernels that do not know them,
+    /// e.g. 0x4000 = STATX_MNT_ID_UNIQUE: Linux 5.8 - 6.7 report only the classic STATX_MNT_ID)
+    pub statx_clear: u64,
 }
 
 pub struct Recorder<'a> {
@@ -469,6 +472,12 @@ impl Worker {
                     }
                 }
             }
+        }
+        if ent.name == "statx" && rec.plan.statx_clear != 0 && inject.is_none() {
+            let mut regs = self.regs();
+            regs.r10 &= !rec.plan.statx_clear;
+            self.setregs(&regs);
+            ent.ev["mask_cleared"] = json!(rec.plan.statx_clear);
         }
         if let Some(e) = inject {
             let mut regs = self.regs();
@@ -908,6 +917,7 @@ impl Shard {
                 }
             }
         }
+        plan.statx_clear = case.get("statx_clear").and_then(|v| v.as_u64()).unwrap_or(0);
         let nseq = plan.seq.len();
 
         let mut req = case.clone();
